@@ -263,6 +263,8 @@ def gen(rng, tier, index):
         pdw = adw << (-k)
     anb = adw // 8
     base = rng.choice([0, 0, 0x1000, 0x40000000])
+    if base // anb >= (1 << 29):
+        base = 0x1000      # keep base + window inside the 30-bit bus address space (an address that wraps below the base is outside the window)
     mb = rng.choice([2, 4, 8, 16, 16])
     d = {"av_dw": adw, "port_dw": pdw, "base": base, "paw": paw, "max_burst": mb}
     aoff = base // anb
